@@ -32,7 +32,129 @@ contract(
     "aw_core.models.Event.timestamp.setter",
     params={"self": "Event", "timestamp": "datetime"},
     requires=[],
-    ensures=["self.timestamp == floor_ms(timestamp)"],
+    ensures=["'timestamp' in self", "self.timestamp == floor_ms(timestamp)"],
     modifies=["self.timestamp"],
     raises=[],
 )
+
+
+# ======================================================================================================
+# C13 - aw_core/models.py
+# ======================================================================================================
+M = "aw_core.models."
+
+ANYDT = {"ts_in": {"any": True}, "timestamp": {"any": True}}
+
+
+@spec
+def whole_ms_offset(t):
+    """The UTC offset of t (if it has one) is a whole number of milliseconds (ISO-8601 offsets are whole minutes)."""
+    return t.utcoffset() is None or ms_aligned(t.utcoffset())
+
+
+# -- _timestamp_parse: datetime in any zone (or naive) / ISO-8601 string ---------------------------------
+contract(
+    M + "_timestamp_parse",
+    params={"ts_in": "datetime"}, param_attrs=ANYDT, returns="datetime",
+    requires=["whole_ms_offset(ts_in)"],
+    ensures=["result == floor_to_ms(ts_in)", "ms_aligned(result)", "result.tzinfo is not None", "whole_ms_offset(result)"],
+    modifies=[], raises=[],
+)
+contract(
+    M + "_timestamp_parse:str",
+    params={"ts_in": "str"}, returns="datetime", requires=[],
+    ensures=["result == floor_to_ms(parse_date(ts_in))", "ms_aligned(result)", "result.tzinfo is not None", "whole_ms_offset(result)"],
+    modifies=[], raises=["ParseError"],
+)
+
+# -- timestamp setter for any zone / string (the UTC, aligned variant is above) ----------------------------
+contract(
+    M + "Event.timestamp.setter:any",
+    params={"self": "Event", "timestamp": "datetime"}, param_attrs=ANYDT,
+    requires=["whole_ms_offset(timestamp)"],
+    ensures=["'timestamp' in self", "self.timestamp == floor_to_ms(timestamp)", "ms_aligned(self.timestamp)"],
+    modifies=["self.timestamp"], raises=[],
+)
+contract(
+    M + "Event.timestamp.setter:str",
+    params={"self": "Event", "timestamp": "str"}, requires=[],
+    ensures=["'timestamp' in self", "self.timestamp == floor_to_ms(parse_date(timestamp))", "ms_aligned(self.timestamp)"],
+    modifies=["self.timestamp"], raises=["ParseError"],
+)
+
+# -- duration setter ------------------------------------------------------------------------------------------
+contract(M + "Event.duration.setter", params={"self": "Event", "duration": "timedelta"}, requires=[],
+         ensures=["'duration' in self", "self.duration == duration"], modifies=["self.duration"], raises=[])
+contract(M + "Event.duration.setter:float", params={"self": "Event", "duration": "float"}, requires=[],
+         ensures=["'duration' in self", "self.duration == timedelta(seconds=duration)"], modifies=["self.duration"], raises=[])
+contract(M + "Event.duration.setter:int", params={"self": "Event", "duration": "int"}, requires=[],
+         ensures=["'duration' in self", "self.duration == timedelta(seconds=duration)"], modifies=["self.duration"], raises=[])
+contract(M + "Event.duration.setter:other", params={"self": "Event", "duration": "str"}, requires=[],
+         ensures=["False"], exc_ensures={"TypeError": ["self.duration == old(self.duration)"]},
+         modifies=[], raises=["TypeError"])
+
+# -- __init__: the class invariant every other property relies on ------------------------------------------------
+INIT_COMMON = [
+    "'id' in self and 'timestamp' in self and 'duration' in self and 'data' in self",
+    "self.id == id",
+    "ms_aligned(self.timestamp)",
+    "(data is not None and len(data) > 0 and self.data is data) or ((data is None or len(data) == 0) and self.data == {})",
+]
+contract(
+    M + "Event.__init__",
+    params={"self": "Event", "id": "Optional[int]", "timestamp": "datetime", "duration": "timedelta", "data": "Optional[Dict[str,JV]]"},
+    param_attrs=ANYDT, requires=["whole_ms_offset(timestamp)"],
+    ensures=INIT_COMMON + ["self.timestamp == floor_to_ms(timestamp)", "self.duration == duration"],
+    modifies=["self.id", "self.timestamp", "self.duration", "self.data", "alloc"], raises=[],
+)
+contract(
+    M + "Event.__init__:str-float",
+    params={"self": "Event", "id": "Optional[int]", "timestamp": "str", "duration": "float", "data": "Optional[Dict[str,JV]]"},
+    requires=[],
+    ensures=INIT_COMMON + ["self.timestamp == floor_to_ms(parse_date(timestamp))", "self.duration == timedelta(seconds=duration)"],
+    modifies=["self.id", "self.timestamp", "self.duration", "self.data", "alloc"], raises=["ParseError"],
+)
+
+# -- equality ------------------------------------------------------------------------------------------------------
+contract(
+    M + "Event.__eq__",
+    params={"self": "Event", "other": "Event"}, returns="bool", requires=[],
+    ensures=["result == (self.timestamp == other.timestamp and self.duration == other.duration and self.data == other.data)"],
+    modifies=[], raises=[],
+)
+
+
+# -- JSON form ----------------------------------------------------------------------------------------------------
+UNCHANGED_SELF = ("self.timestamp == old(self.timestamp) and self.duration == old(self.duration) and self.data == old(self.data)"
+                  " and self.id == old(self.id)")
+contract(
+    M + "Event.to_json_dict",
+    params={"self": "Event"}, returns="SDict", requires=[],
+    ensures=[
+        # (the schema clauses are appended by props/C13.py from aw_core/schemas/event.json)
+        "parse_date(result['timestamp']) == self.timestamp",            # A-RT1
+        "timedelta(seconds=result['duration']) == self.duration",       # A-RT2
+        "result['data'] is self.data and result['id'] == self.id",
+        UNCHANGED_SELF,
+    ],
+    modifies=["alloc"], raises=[],
+)
+
+
+# -- round trips (ghost drivers: verified like any other function, against the contracts above) ----------------------
+def roundtrip_json(e):
+    from aw_core.models import Event
+    return Event(**e.to_json_dict())
+
+
+def roundtrip_self(e):
+    from aw_core.models import Event
+    return Event(**e)
+
+
+RT = ["result == e", "result.id == e.id", "result.timestamp == e.timestamp and result.duration == e.duration and result.data == e.data",
+      "fresh(result)"]
+contract("contracts.models.roundtrip_json", params={"e": "Event"}, returns="Event", requires=[], ensures=RT,
+         modifies=["alloc"], raises=["ParseError"])
+contract("contracts.models.roundtrip_self", params={"e": "Event"}, returns="Event", requires=[], ensures=RT,
+         modifies=["alloc"], raises=[])
